@@ -433,6 +433,17 @@ func SnippetProperty(impl SnippetImpl) Property {
 							fail("args-mutated", fmt.Sprintf("%s changed an existing map in place: %v -> %v", f[1], snap[i], heap[i]))
 						}
 					}
+					// "extended by copy": the result shares no storage with an existing map, also when an operand is empty
+					if res != nil {
+						const probe = "\x00probe"
+						res[probe] = 1
+						for i := range heap {
+							if _, shared := heap[i][probe]; shared {
+								fail("args-aliased", fmt.Sprintf("%s returned map %d itself instead of a copy: a later store into the result changes it", f[1], i))
+							}
+						}
+						delete(res, probe)
+					}
 					heap = append(heap, res)
 					outs[idx] = showArgsHeap(heap)
 				default:
@@ -554,7 +565,7 @@ func snippetGen(c *Ctx, impl SnippetImpl) {
 			for m := 0; m < nmaps; m++ {
 				var ks, vs []string
 				for _, key := range keys {
-					if r.Bool() {
+					if r.Bool() && (m == 0 || it%3 != 0) { // every third case: the second map is empty
 						ks = append(ks, key)
 						vs = append(vs, r.Pick([]string{"1", "2", "x"}))
 					}
